@@ -480,11 +480,13 @@ P('C19', claimed=True, level='other',
   technique='contract-based deductive verification of Env._envgen_format/_env_at/wrap_extend (pyvc, z3) + exhaustive table obligations + bounded run-time contracts against an independent Env reference')
 
 P('C20', claimed=True, needs_driver=True, level='other',
-  contracts=['synth_synthdef'], drivers=['vf.drivers.C20'],
+  contracts=['synth_synthdef', 'synth_buildcontrols'], drivers=['vf.drivers.C20'],
   level_text=('SynthDef._build is proved to leave the build context clear and the lock released on every '
               'outcome of its three phases (frame condition over try/except and with); a static '
               'obligation lists every iteration over a set-typed value in synthdef.py/ugen.py and '
-              'requires it not to reach the output order. Byte equality across repeated, interleaved, '
+              'requires it not to reach the output order; _init_build starts every build from empty tables of its own; '
+              'a new unit (SynthObject / OutputProxy / WidthFirstUGen._add_to_synth) belongs to EXACTLY the build context '
+              'of the moment - to no definition outside a build - and registers once iff there is one. Byte equality across repeated, interleaved, '
               'failing, concurrent, cross-mode and cross-hash-seed builds is a bounded run-time contract.'),
   level_note='All hash seeds / all thread schedules are sampled only.',
   unreached=['all PYTHONHASHSEED values', 'all thread schedules'])
